@@ -182,7 +182,7 @@ func (x *wireExec) wait(cond func() bool) {
 		synctest.Wait()
 		return
 	}
-	deadline := time.Now().Add(4 * time.Second)
+	deadline := time.Now().Add(8 * time.Second)
 	for !cond() && time.Now().Before(deadline) {
 		time.Sleep(time.Millisecond)
 	}
@@ -446,20 +446,20 @@ func (x *wireExec) run(sc *WireScenario) {
 			// client and answers with magic / length nibble / serializer nibble (or hangs up)
 			x.ser = serializerFor(map[int]string{1: "json", 2: "msgpack", 3: "cbor"}[sc.Ser])
 			go func() {
-				ctx, cancel := context.WithTimeout(context.Background(), 10*time.Second)
+				ctx, cancel := context.WithTimeout(context.Background(), 40*time.Second)
 				defer cancel()
 				p, err := transport.ConnectRawSocketPeer(ctx, "tcp", ln.Addr().String(),
 					map[int]serialize.Serialization{1: serialize.JSON, 2: serialize.MSGPACK, 3: serialize.CBOR}[sc.Ser], nil, discardLog, sc.Limit)
 				accepted <- res{p, err}
 			}()
-			_ = ln.(*net.TCPListener).SetDeadline(time.Now().Add(5 * time.Second))
+			_ = ln.(*net.TCPListener).SetDeadline(time.Now().Add(20 * time.Second))
 			c, err := ln.Accept()
 			if err != nil {
 				panic("the connecting side never arrived: " + err.Error())
 			}
 			cconn = c
 			var hello [4]byte
-			_ = c.SetReadDeadline(time.Now().Add(5 * time.Second))
+			_ = c.SetReadDeadline(time.Now().Add(20 * time.Second))
 			_, herr := io.ReadFull(c, hello[:])
 			_ = c.SetReadDeadline(time.Time{})
 			if in.Body == "eof" {
@@ -479,7 +479,7 @@ func (x *wireExec) run(sc *WireScenario) {
 					peer = r.p
 					go x.routerReader(peer)
 				}
-			case <-time.After(5 * time.Second):
+			case <-time.After(20 * time.Second):
 				outcome = "hang"
 			}
 			if herr != nil || hello[0] != 0x7f || hello[2] != 0 || hello[3] != 0 {
